@@ -53,7 +53,7 @@ CHECKS = {
    technique="Coq proof over repository fault model + exhaustive single-fault injection"),
  "C08": dict(
    category="proof",
-   text="Coq theorems (Props/C08.v) over a model of the tree array and of the commit operations written in the shape of tree_kem/mod.rs / node.rs on the translated tree math: for EVERY tree and operation sequence leaves stay on even and parents on odd indices, the tree never ends in a blank node, a new leaf takes the leftmost blank slot or extends the tree by one leaf. Tie: the model's tree after every commit of generated histories (growth, shrink, regrowth, interior blanks, unmerged leaves, filtered path nodes) equals every member's exported tree node by node; the tree hash of every exported tree is recomputed from its bytes inside Coq by an RFC 9420 7.8 implementation over Gallina SHA-256 (independent of tree_hash.rs) and equals the hash in the group context. PARTIAL: parent-hash chain validity and unmerged-leaf consistency are not theorems; every exported tree is instead validated by the library's own observer / joiner validation.",
+   text="Coq theorems (Props/C08.v) over a model of the tree array and of the commit operations written in the shape of tree_kem/mod.rs / node.rs on the translated tree math: for EVERY tree and operation sequence leaves stay on even and parents on odd indices, the tree never ends in a blank node, a new leaf takes the leftmost blank slot or extends the tree by one leaf; every commit (proposals, then the optional path) preserves WF3 (an unmerged leaf listed at a parent is a non-blank leaf below it) and WF5 (every non-blank parent has a member in each of its two subtrees), hence a node of a committer's path with an empty copath resolution is blank. Tie: the model's tree after every commit of generated histories (growth, shrink, regrowth, interior blanks, unmerged leaves, filtered path nodes) equals every member's exported tree node by node; the tree hash of every exported tree is recomputed from its bytes inside Coq by an RFC 9420 7.8 implementation over Gallina SHA-256 (independent of tree_hash.rs) and equals the hash in the group context. PARTIAL: parent-hash chain validity and unmerged-leaf consistency are not theorems; every exported tree is instead validated by the library's own observer / joiner validation.",
    design_ref="DESIGN.md section 6 C08",
    note=COMMON_NOTE + "Hand-modelled: Model/Tree.v, Model/TreeHashRFC.v. Parent-hash validity: validated with the library's validator (not independent), no theorem.",
    technique="Coq proof over tree-operation model + in-Coq RFC tree hash recomputation + node-by-node correspondence"),
@@ -65,7 +65,7 @@ CHECKS = {
    technique="Coq proof (tree invariant + recipient theorem + admission) + recorded-HPKE-recipient correspondence"),
  "C09": dict(
    category="proof",
-   text="Coq theorems (Props/C09.v) over a transcription of the private-key bookkeeping (provisional_private_tree, encap, decap, update_secrets, update_leaf) on key tokens: the invariant PrivOK (every stored key sits at a non-blank node of the member's direct path and is that node's key) is preserved by the proposal step, by decap for every receiver / committer pair (positions from the common ancestor up; nothing below touched; filtered nodes cleared), established by encap for the committer and by update_secrets for a joiner, for every tree, member, filter list and key assignment; the committer's leaf and every non-filtered path node carry fresh keys. Tie: for every commit of generated histories and every member (committer, each receiver, each joiner) the positions holding a key afterwards are computed by the Coq model and compared with the real TreeKemPrivate. Implementation oracles: every stored key opens an HPKE ciphertext sealed to its node's key (probe per key per observation), no key for a blank node, all non-blank committer path nodes carry new keys, replaced leaf keys are gone. PARTIAL: 'filtered path node is blank' is not a theorem (validated on the implementation).",
+   text="Coq theorems (Props/C09.v) over a transcription of the private-key bookkeeping (provisional_private_tree, encap, decap, update_secrets, update_leaf) on key tokens: the invariant PrivOK (every stored key sits at a non-blank node of the member's direct path and is that node's key) is preserved by the proposal step, by decap for every receiver / committer pair (positions from the common ancestor up; nothing below touched; filtered nodes cleared), established by encap for the committer and by update_secrets for a joiner, for every tree, member, filter list and key assignment; the COMPLETENESS invariant (for every non-blank ancestor a member holds the private key or is listed there as unmerged leaf) is proved over the tree model with its unmerged lists: preserved by the proposals for every member that stays, by the path for every receiver and the committer, established for every joiner; the committer's leaf and every non-filtered path node carry fresh keys. Tie: for every commit of generated histories and every member (committer, each receiver, each joiner) the positions holding a key afterwards are computed by the Coq model and compared with the real TreeKemPrivate. Implementation oracles: every stored key opens an HPKE ciphertext sealed to its node's key (probe per key per observation), no key for a blank node, all non-blank committer path nodes carry new keys, replaced leaf keys are gone. PARTIAL: 'filtered path node is blank' is not a theorem (validated on the implementation).",
    design_ref="DESIGN.md section 6 C09",
    note=COMMON_NOTE + "Hand-modelled: Model/Priv.v. A private key is identified with its public key token; the HPKE probe in the harness is what ties tokens to real key pairs.",
    technique="Coq proof (PrivOK invariant) + per-member key-position correspondence + HPKE seal/open probes"),
@@ -119,7 +119,7 @@ CHECKS = {
    technique="Coq proof (key package store, joiner key positions) + joiner-vs-member differential"),
  "C01": dict(
    category="proof",
-   text="Coq theorems (Props/C01.v): TreeKEM secret agreement - for every filter list, whoever enters the committer's chain of path secrets at a non-filtered position with that position's secret reproduces the rest of the chain and ends in the committer's commit secret (model of encap / decap / PathSecretGenerator over an abstract derivation function), so all receivers at every distance agree with the committer and with each other; secrets sit exactly at non-filtered positions; proposal agreement (what the committer keeps is applied unchanged by every receiver); the epoch advances by exactly one accepted commit. PARTIAL: that every receiver's common-ancestor position is non-filtered and that it holds a key in the copath resolution is not proved. Search oracle: random histories with every operation kind (by-value / by-reference adds, updates, removes, PSK, group-context-extension, custom proposals, identity changes, path / no-path commits, external-commit joins and resyncs, growth and shrink with interior blanks), members on different crypto providers in one group, cipher suites 1-3, every commit option, shuffled delivery: after every commit all members are compared pairwise on context, tree, roster, transcript hash, authenticator and an exported secret, epoch +1, all-to-all decryption at the end.",
+   text="Coq theorems (Props/C01.v): TreeKEM secret agreement - for every filter list, whoever enters the committer's chain of path secrets at a non-filtered position with that position's secret reproduces the rest of the chain and ends in the committer's commit secret (model of encap / decap / PathSecretGenerator over an abstract derivation function), so all receivers at every distance agree with the committer and with each other; secrets sit exactly at non-filtered positions; proposal agreement (what the committer keeps is applied unchanged by every receiver); the epoch advances by exactly one accepted commit. decryption side (Model/Decap.v: find_resolved_pos / find_ciphertext_pos and a structural specification of resolutions proved equal to the stack algorithm): the receiver's position in the committer's path is never filtered, whatever ciphertext position decap selects was sealed by the committer to a node whose key the receiver holds, and a member whose private state is complete (C09's invariant, proved for members, receivers, committer and joiners) always finds its ciphertext. PARTIAL: the pieces are separate models tied to the code one by one; there is no single end-to-end 'all members agree' theorem over one group model. Search oracle: directed hole histories (full tree of 8-16 leaves, removals, re-keying path commits, adds with path into the holes) and random histories with every operation kind (by-value / by-reference adds, updates, removes, PSK, group-context-extension, custom proposals, identity changes, path / no-path commits, external-commit joins and resyncs, growth and shrink with interior blanks), members on different crypto providers in one group, cipher suites 1-3, every commit option, shuffled delivery: after every commit all members are compared pairwise on context, tree, roster, transcript hash, authenticator and an exported secret, epoch +1, all-to-all decryption at the end.",
    design_ref="DESIGN.md section 6 C01",
    note=COMMON_NOTE + "Hand-modelled: Model/KemSecrets.v; restates theorems of C10 / C11. The equality of the members' states is established on the implementation by exhaustive pairwise comparison over generated histories, not by an end-to-end theorem.",
    technique="Coq proof (path-secret chain agreement, proposal agreement, epoch step) + mixed-provider random-history differential"),
